@@ -201,6 +201,26 @@ const ST_MSL_T: [i64; 5] = [1, 2, 3, 4, 5];
 const ST_MSS_T: [i64; 6] = [0, 1, 2, 3, 5, 8];
 const ST_K: [usize; 4] = [2, 3, 5, 4];
 
+// Extension (round 2): configuration grids of the label-table and offset-target families
+const TAB_DEPTH: [i64; 2] = [0, 2];
+const TAB_MSL: [i64; 2] = [1, 2];
+const TAB_MSS: [i64; 1] = [0];
+const OFF_DEPTH: [i64; 3] = [1, 2, 0]; // the stump first: the sharpest observation of the root's choice
+const OFF_MSL: [i64; 3] = [1, 2, 3];
+const OFF_MSS: [i64; 2] = [0, 3];
+const ST_TAB_DEPTH: [i64; 3] = [0, 2, 8];
+const ST_TAB_MSL: [i64; 2] = [1, 2];
+const ST_TAB_MSS: [i64; 2] = [0, 2];
+const ST_OFF_DEPTH: [i64; 3] = [1, 2, 0];
+const ST_OFF_MSL: [i64; 3] = [1, 2, 5];
+const ST_OFF_MSS: [i64; 2] = [0, 8];
+
+/// "tables" (classification: real-valued label tables), "offsets" (regression: targets with a
+/// large common offset) or "" (the original families).
+fn ext_of(job: &Job) -> &str {
+    job.params.get("ext").and_then(|v| v.as_str()).unwrap_or("")
+}
+
 fn dim(job: &Job, key: &str, alphabet: &[i64]) -> i64 {
     match job.params.get(key).and_then(|v| v.as_i64()) {
         Some(v) => v,
@@ -240,13 +260,49 @@ fn choose_y(model: Model, n: usize, yalpha: &[f64; 3], map: &[f64; 3]) -> Option
     }
 }
 
+/// Targets of the extension families: the label table / the common offset is a choice, then every
+/// sequence of n letters (classification: at least two classes, as above).
+fn choose_y_ext(job: &Job, model: Model, n: usize, seed: u64) -> Option<Vec<f64>> {
+    match (ext_of(job), model.is_cls()) {
+        ("tables", true) => {
+            let t = mc::choose(data::REAL_TABLES.len());
+            let k = data::REAL_TABLES[t].len();
+            let letters: Vec<usize> = (0..n).map(|_| mc::choose(k)).collect();
+            if letters.iter().all(|l| *l == letters[0]) {
+                mc::count("single_class_outside_domain");
+                return None;
+            }
+            mc::count("ext_label_table_cases");
+            Some(letters.iter().map(|l| data::table_label(t, *l, seed)).collect())
+        }
+        ("offsets", false) => {
+            let off = mc::pick(&data::OFFSETS);
+            let small = data::y_alphabet(seed);
+            mc::count("ext_offset_target_cases");
+            Some((0..n).map(|_| data::offset_target(off, small[mc::choose(3)])).collect())
+        }
+        (e, _) => panic!("job {}: extension {:?} does not apply to this model", job.name, e),
+    }
+}
+
+fn lattice_cfg_and_y(job: &Job, model: Model, n: usize, seed: u64) -> (Cfg, Option<Vec<f64>>) {
+    match ext_of(job) {
+        "" => {
+            let cfg = cfg_of(job, model, &LAT_DEPTH, &LAT_MSL, &LAT_MSS);
+            let map = data::LABEL_MAPS[job.u("map") % data::LABEL_MAPS.len()];
+            (cfg, choose_y(model, n, &data::y_alphabet(seed), &map))
+        }
+        "tables" => (cfg_of(job, model, &TAB_DEPTH, &TAB_MSL, &TAB_MSS), choose_y_ext(job, model, n, seed)),
+        _ => (cfg_of(job, model, &OFF_DEPTH, &OFF_MSL, &OFF_MSS), choose_y_ext(job, model, n, seed)),
+    }
+}
+
 fn run_lattice(job: &Job, seed: u64) {
     let model = model_of(job.s("model"));
     let (n, p) = (job.u("n"), job.u("p"));
-    let cfg = cfg_of(job, model, &LAT_DEPTH, &LAT_MSL, &LAT_MSS);
     let xa = if job.s("alpha") == "ulp" { data::ulp_alphabet() } else { data::x_alphabet(seed) };
-    let map = data::LABEL_MAPS[job.u("map") % data::LABEL_MAPS.len()];
-    let Some(y) = choose_y(model, n, &data::y_alphabet(seed), &map) else { return };
+    let (cfg, y) = lattice_cfg_and_y(job, model, n, seed);
+    let Some(y) = y else { return };
     let x: Vec<Vec<f64>> = (0..n).map(|_| (0..p).map(|_| xa[mc::choose(3)]).collect()).collect();
     exec_case(&Data { x, y, family: String::new() }, &cfg, !job.b("base_only"));
 }
@@ -259,9 +315,8 @@ fn choose_perm(n: usize) -> Vec<usize> {
 fn run_perm(job: &Job, seed: u64) {
     let model = model_of(job.s("model"));
     let (n, p) = (job.u("n"), job.u("p"));
-    let cfg = cfg_of(job, model, &LAT_DEPTH, &LAT_MSL, &LAT_MSS);
-    let map = data::LABEL_MAPS[job.u("map") % data::LABEL_MAPS.len()];
-    let Some(y) = choose_y(model, n, &data::y_alphabet(seed), &map) else { return };
+    let (cfg, y) = lattice_cfg_and_y(job, model, n, seed);
+    let Some(y) = y else { return };
     let mut x = vec![vec![0.0; p]; n];
     for j in 0..p {
         let perm = choose_perm(n);
@@ -299,11 +354,30 @@ fn run_sorttree(job: &Job, seed: u64) {
 fn run_struct(job: &Job, seed: u64, thorough: bool) {
     let model = model_of(job.s("model"));
     let (n, p) = (job.u("n"), job.u("p"));
-    let cfg = if job.s("grid") == "fine" { cfg_of(job, model, &ST_DEPTH_T, &ST_MSL_T, &ST_MSS_T) } else { cfg_of(job, model, &ST_DEPTH_Q, &ST_MSL_Q, &ST_MSS_Q) };
+    let ext = ext_of(job);
+    let cfg = match ext {
+        "tables" => cfg_of(job, model, &ST_TAB_DEPTH, &ST_TAB_MSL, &ST_TAB_MSS),
+        "offsets" => cfg_of(job, model, &ST_OFF_DEPTH, &ST_OFF_MSL, &ST_OFF_MSS),
+        _ if job.s("grid") == "fine" => cfg_of(job, model, &ST_DEPTH_T, &ST_MSL_T, &ST_MSS_T),
+        _ => cfg_of(job, model, &ST_DEPTH_Q, &ST_MSL_Q, &ST_MSS_Q),
+    };
     let start = mc::choose(data::N_COLS);
     let x: Vec<Vec<f64>> = (0..n).map(|i| (0..p).map(|j| data::col(start + j, n, i, seed)).collect()).collect();
     let cols: Vec<&str> = (0..p).map(|j| data::COL_NAMES[(start + j) % data::N_COLS]).collect();
-    let (y, yname): (Vec<f64>, String) = if model.is_cls() {
+    let (y, yname): (Vec<f64>, String) = if ext == "tables" {
+        // real-valued label table (a choice); the number of classes is the size of the table
+        let t = mc::choose(data::REAL_TABLES.len());
+        let k = data::REAL_TABLES[t].len();
+        let yk = mc::choose(data::N_YCLS);
+        mc::count("ext_label_table_cases");
+        ((0..n).map(|i| data::table_label(t, data::y_cls(yk, k, n, i, seed), seed)).collect(), format!("{} classes {} with labels {:?}", k, data::YCLS_NAMES[yk], data::REAL_TABLES[t]))
+    } else if ext == "offsets" {
+        // the regression patterns (rounded to multiples of 2^-8) on top of a common offset (a choice)
+        let off = mc::pick(&data::OFFSETS);
+        let yk = mc::choose(data::N_YREG);
+        mc::count("ext_offset_target_cases");
+        ((0..n).map(|i| data::offset_target(off, data::y_reg(yk, n, i, seed))).collect(), format!("{} + {}", off, data::YREG_NAMES[yk]))
+    } else if model.is_cls() {
         let k = if thorough { mc::pick(&ST_K) } else { mc::pick(&ST_K[..3]) };
         let yk = mc::choose(data::N_YCLS);
         ((0..n).map(|i| data::UGLY5[data::y_cls(yk, k, n, i, seed)]).collect(), format!("{} classes {}", k, data::YCLS_NAMES[yk]))
@@ -430,6 +504,27 @@ impl Harness for C05 {
                 jobs.push(Job::new(format!("perm-{}-p2-n{}", m, n), json!({"kind": "perm", "model": m, "p": 2, "n": n, "map": 1})));
             }
         }
+        // ---- extension (round 2), small sizes: real-valued label tables (the table is a choice inside
+        // the job) and regression targets offset + small (the offset is a choice), every x, full case
+        let ext = |name: String, kind: &str, ext: &str, model: &str, p: usize, n: usize, fixed: &[(&str, i64)], base_only: bool| -> Job {
+            let mut params = json!({"kind": kind, "alpha": "int", "ext": ext, "model": model, "p": p, "n": n, "map": 0, "base_only": base_only});
+            for (k, v) in fixed {
+                params[*k] = json!(*v);
+            }
+            Job::new(name, params)
+        };
+        for n in 2..=4 {
+            jobs.push(ext(format!("lat-reg-p1-n{}-offsets", n), "lat", "offsets", "reg", 1, n, &[], false));
+            for m in &MODELS[1..] {
+                jobs.push(ext(format!("lat-{}-p1-n{}-rtables", m, n), "lat", "tables", m, 1, n, &[], false));
+                jobs.push(ext(format!("perm-{}-p1-n{}-rtables", m, n), "perm", "tables", m, 1, n, &[], false));
+            }
+        }
+        jobs.push(ext("lat-reg-p2-n2-offsets".into(), "lat", "offsets", "reg", 2, 2, &[], false));
+        for n in 2..=3 {
+            jobs.push(ext(format!("perm-reg-p2-n{}-offsets", n), "perm", "offsets", "reg", 2, n, &[], false));
+        }
+
         // ---- every column of n >= 8 rows over four letters (sort regime), full tree oracle
         let smax = if t { 10 } else { 8 };
         for n in 8..=smax {
@@ -461,6 +556,23 @@ impl Harness for C05 {
                         jobs.push(Job::new(format!("struct-{}-n{}-p{}", m, n, p), json!({"kind": "struct", "model": m, "n": n, "p": p, "grid": if t { "fine" } else { "coarse" }})));
                     }
                 }
+            }
+        }
+        // ---- extension (round 2), structured sets
+        let (tns, tps): (&[usize], &[usize]) = if t { (ns, ps) } else { (&[8, 11, 16, 23, 40], &[1, 2, 3, 6]) };
+        for &n in tns {
+            for &p in tps {
+                for m in &MODELS[1..] {
+                    jobs.push(Job::new(format!("struct-{}-n{}-p{}-rtables", m, n, p), json!({"kind": "struct", "ext": "tables", "model": m, "n": n, "p": p, "grid": "ext"})));
+                }
+            }
+        }
+        for &n in ns {
+            for &p in ps {
+                if !t && n == 150 && p > 2 {
+                    continue;
+                }
+                jobs.push(Job::new(format!("struct-reg-n{}-p{}-offsets", n, p), json!({"kind": "struct", "ext": "offsets", "model": "reg", "n": n, "p": p, "grid": "ext"})));
             }
         }
         // ---- larger lattices: one job per (model, depth, msl) [and first letters]
@@ -504,6 +616,36 @@ impl Harness for C05 {
                             ));
                         }
                     }
+                }
+            }
+        }
+        // ---- extension (round 2), larger sizes (bulk: fit + predict + judge)
+        {
+            // label tables: quick n = 5 with the limits disabled; thorough n = 5 on the table grid, n = 6 with the limits disabled
+            let off: &[(&str, i64)] = &[("depth", 0), ("msl", 1), ("mss", 0)];
+            for m in &MODELS[1..] {
+                jobs.push(ext(format!("lat-{}-p1-n5-rtables", m), "lat", "tables", m, 1, 5, if t { &[] } else { off }, true));
+                jobs.push(ext(format!("perm-{}-p1-n5-rtables", m), "perm", "tables", m, 1, 5, if t { &[] } else { off }, true));
+                if t {
+                    jobs.push(ext(format!("lat-{}-p1-n6-rtables", m), "lat", "tables", m, 1, 6, off, true));
+                    jobs.push(ext(format!("perm-{}-p1-n6-rtables", m), "perm", "tables", m, 1, 6, off, true));
+                }
+            }
+            // offset targets: p = 1, n = 5 [6]: max_depth {1,2,None} x msl {1,2} (thorough n = 5: the whole offset grid); p = 2, n = 3 [4]: msl 1
+            for d in OFF_DEPTH {
+                for l in [1i64, 2] {
+                    if t {
+                        jobs.push(ext(format!("lat-reg-p1-n6-offsets-depth{}-msl{}", d, l), "lat", "offsets", "reg", 1, 6, &[("depth", d), ("msl", l), ("mss", 0)], true));
+                    } else {
+                        jobs.push(ext(format!("lat-reg-p1-n5-offsets-depth{}-msl{}", d, l), "lat", "offsets", "reg", 1, 5, &[("depth", d), ("msl", l), ("mss", 0)], true));
+                    }
+                }
+                if t {
+                    jobs.push(ext(format!("lat-reg-p1-n5-offsets-depth{}", d), "lat", "offsets", "reg", 1, 5, &[("depth", d)], true));
+                    jobs.push(ext(format!("lat-reg-p2-n3-offsets-depth{}", d), "lat", "offsets", "reg", 2, 3, &[("depth", d)], true));
+                    jobs.push(ext(format!("lat-reg-p2-n4-offsets-depth{}", d), "lat", "offsets", "reg", 2, 4, &[("depth", d), ("msl", 1), ("mss", 0)], true));
+                } else {
+                    jobs.push(ext(format!("lat-reg-p2-n3-offsets-depth{}", d), "lat", "offsets", "reg", 2, 3, &[("depth", d), ("msl", 1), ("mss", 0)], true));
                 }
             }
         }
